@@ -52,6 +52,19 @@ Theorem C10_gopo_table_wellformed : forall lookup d cn cv lits,
     lits = lit_entries (oname d) 0 (ocands d).
 Proof. exact gopo_table_wellformed. Qed.
 
+(* END TO END, from the declaration to the dispatched candidate: for a well-formed declaration whose candidates are
+   pairwise distinguishable, in a scope that binds each candidate's name (the declared name__k for a literal) to that
+   candidate, first-match dispatch over the objects gogen finds under the names it decodes from cl's constant
+   reaches the candidate that accepts the arguments — wherever it is listed, whatever its style. *)
+Theorem C10_dispatch_end_to_end : forall lookup lookup_fn (A : Type) (accepts : cand -> A -> bool) d cn cv lits a c,
+  wf_odecl lookup d = true -> scope_binds lookup_fn d ->
+  preload_overload d = Ok (Some (mkpre (Some (cn, cv)) lits)) ->
+  pairwise_distinguishable accepts (ocands d) -> In c (ocands d) -> accepts c a = true ->
+  exists r nm es,
+    decode_gopo lookup cn cv = Ok (r, nm, es) /\
+    resolve accepts (found_cands lookup_fn es) a = Some c.
+Proof. exact dispatch_end_to_end. Qed.
+
 (* the encoding of the constant's name, as characterised from the translated source *)
 Theorem C10_overloadName_spec : forall recv name,
   gen_overloadName recv name false =
@@ -126,5 +139,6 @@ Print Assumptions C10_overloadFuncName_panics_from_36.
 Print Assumptions C10_tables_agree.
 Print Assumptions C10_gopo_table_wellformed.
 Print Assumptions C10_overloadName_spec.
+Print Assumptions C10_dispatch_end_to_end.
 Print Assumptions C10_dunder_name_refuted.
 Print Assumptions C10_operator_literal_refuted.
